@@ -150,6 +150,7 @@ type Plugin struct {
 	Spec
 	rec      *Recorder
 	hook     Hook
+	hsHook   func(p *Plugin, stage string) error
 	probes   atomic.Int64
 	synced   atomic.Int64
 	closedC  chan struct{}
@@ -236,10 +237,20 @@ func (p *Plugin) updatesFor(ev int, req string) []*api.ContainerUpdate {
 }
 
 func (p *Plugin) Configure(_ context.Context, _, _, _ string) (api.EventMask, error) {
+	if p.hsHook != nil {
+		if err := p.hsHook(p, "configure"); err != nil {
+			return 0, err
+		}
+	}
 	return api.EventMask(int32(p.Mask)), nil
 }
 func (p *Plugin) Synchronize(context.Context, []*api.PodSandbox, []*api.Container) ([]*api.ContainerUpdate, error) {
 	p.synced.Add(1)
+	if p.hsHook != nil {
+		if err := p.hsHook(p, "synchronize"); err != nil {
+			return nil, err
+		}
+	}
 	return nil, nil
 }
 func (p *Plugin) RunPodSandbox(_ context.Context, pod *api.PodSandbox) error {
@@ -462,6 +473,9 @@ func NewRuntime(dir string, rec *Recorder) (*Runtime, error) {
 // Options for connecting one plugin.
 type ConnectOpts struct {
 	Hook Hook
+	// HsHook runs inside the plugin's Configure and Synchronize handlers (stage "configure" /
+	// "synchronize"); a non-nil error is the handler's answer (stub plugins only).
+	HsHook func(p *Plugin, stage string) error
 	// Dial replaces the default unix dialer (C07 wraps the connection).
 	Dial func(path string) (net.Conn, error)
 	// NoWait: do not wait until the runtime has activated the plugin.
@@ -473,7 +487,7 @@ type ConnectOpts struct {
 // Connect registers one plugin and (unless NoWait) returns once the runtime relays
 // requests to it.
 func (r *Runtime) Connect(s Spec, o ConnectOpts) (*Plugin, error) {
-	p := &Plugin{Spec: s, rec: r.Rec, hook: o.Hook, closedC: make(chan struct{}), dial: o.Dial}
+	p := &Plugin{Spec: s, rec: r.Rec, hook: o.Hook, hsHook: o.HsHook, closedC: make(chan struct{}), dial: o.Dial}
 	if p.dial == nil {
 		p.dial = func(path string) (net.Conn, error) { return net.Dial("unix", path) }
 	}
